@@ -117,6 +117,7 @@ type Term struct {
 	Name string // var or app name
 	P1   int    // extract hi / ext amount
 	P2   int    // extract lo
+	Lo, Hi uint64 // unsigned value interval (BV sorts only), sound over-approximation
 }
 
 func (t *Term) IsConst() bool { return t.Op == OConst }
@@ -165,6 +166,9 @@ func (tt *TermTable) mk(op Op, s Sort, c uint64, name string, p1, p2 int, args .
 		return t
 	}
 	t := &Term{ID: len(tt.all), Op: op, S: s, Args: args, C: c, Name: name, P1: p1, P2: p2}
+	if s.K == SBV {
+		t.Lo, t.Hi = interval(t)
+	}
 	tt.all = append(tt.all, t)
 	tt.tab[k] = t
 	if op == OVar {
@@ -172,6 +176,118 @@ func (tt *TermTable) mk(op Op, s Sort, c uint64, name string, p1, p2 int, args .
 	}
 	return t
 }
+
+// interval computes a sound unsigned interval for a freshly built BV term from the
+// intervals of its arguments. Anything it does not understand gets the full range.
+func interval(t *Term) (uint64, uint64) {
+	w := t.S.W
+	m := mask(w)
+	full := func() (uint64, uint64) { return 0, m }
+	a := func(i int) *Term { return t.Args[i] }
+	switch t.Op {
+	case OConst:
+		return t.C, t.C
+	case OZExt:
+		return a(0).Lo, a(0).Hi
+	case OSExt:
+		iw := a(0).S.W
+		if a(0).Hi < uint64(1)<<uint(iw-1) {
+			return a(0).Lo, a(0).Hi
+		}
+	case OExtract:
+		if t.P2 == 0 && a(0).Hi <= m {
+			return a(0).Lo, a(0).Hi
+		}
+	case OAdd:
+		x, y := a(0), a(1)
+		hs, c1 := bits.Add64(x.Hi, y.Hi, 0)
+		if c1 == 0 && hs <= m {
+			return x.Lo + y.Lo, hs
+		}
+		// both ends wrap (typical for x + (-c) with x >= c)
+		if w == 64 {
+			ls, c0 := bits.Add64(x.Lo, y.Lo, 0)
+			if c0 == 1 && c1 == 1 {
+				return ls, hs
+			}
+		} else {
+			ls := x.Lo + y.Lo
+			hs := x.Hi + y.Hi
+			if ls > m && hs > m && hs-ls <= m && ls>>uint(w) == hs>>uint(w) {
+				return ls & m, hs & m
+			}
+		}
+	case OMul:
+		x, y := a(0), a(1)
+		hh, hl := bits.Mul64(x.Hi, y.Hi)
+		if hh == 0 && hl <= m {
+			return x.Lo * y.Lo, hl
+		}
+	case OUDiv:
+		x, y := a(0), a(1)
+		if y.Lo > 0 {
+			return x.Lo / y.Hi, x.Hi / y.Lo
+		}
+	case OURem:
+		x, y := a(0), a(1)
+		if y.IsConst() && y.C > 0 {
+			if x.Lo/y.C == x.Hi/y.C {
+				return x.Lo % y.C, x.Hi % y.C
+			}
+			return 0, y.C - 1
+		}
+		if y.Lo > 0 {
+			h := y.Hi - 1
+			if x.Hi < h {
+				h = x.Hi
+			}
+			return 0, h
+		}
+	case OBAnd:
+		h := a(0).Hi
+		if a(1).Hi < h {
+			h = a(1).Hi
+		}
+		return 0, h
+	case OBOr, OBXor:
+		// bounded by the next power of two above both
+		h := a(0).Hi | a(1).Hi
+		n := bits.Len64(h)
+		if n < 64 {
+			return 0, (uint64(1) << uint(n)) - 1
+		}
+	case OLShr:
+		if a(1).IsConst() && a(1).C < uint64(w) {
+			return a(0).Lo >> a(1).C, a(0).Hi >> a(1).C
+		}
+		return 0, a(0).Hi
+	case OShl:
+		if a(1).IsConst() && a(1).C < uint64(w) {
+			sh := a(1).C
+			if bits.Len64(a(0).Hi)+int(sh) <= w {
+				return a(0).Lo << sh, a(0).Hi << sh
+			}
+		}
+	case OIte:
+		lo, hi := a(1).Lo, a(1).Hi
+		if a(2).Lo < lo {
+			lo = a(2).Lo
+		}
+		if a(2).Hi > hi {
+			hi = a(2).Hi
+		}
+		return lo, hi
+	case OConcat:
+		lw := a(1).S.W
+		if w <= 64 {
+			return a(0).Lo<<uint(lw) | 0, a(0).Hi<<uint(lw) | mask(lw)
+		}
+	}
+	return full()
+}
+
+// nonNeg reports whether t is known to be non-negative as a signed value.
+func nonNeg(t *Term) bool { return t.Hi < uint64(1)<<uint(t.S.W-1) }
 
 func (tt *TermTable) Bool(b bool) *Term {
 	if b {
@@ -327,6 +443,9 @@ func (tt *TermTable) Eq(a, b *Term) *Term {
 	if a.IsConst() && b.IsConst() && a.S.K != SFP {
 		return tt.Bool(a.C == b.C)
 	}
+	if a.S.K == SBV && (a.Hi < b.Lo || b.Hi < a.Lo) {
+		return tt.False()
+	}
 	if a.S.K == SBool {
 		if a.IsConst() {
 			a, b = b, a
@@ -451,6 +570,27 @@ func (tt *TermTable) binBV(op Op, a, b *Term) *Term {
 		}
 		return tt.Const(w, r)
 	}
+	if (op == OSDiv || op == OSRem) && nonNeg(a) && nonNeg(b) && b.Lo > 0 {
+		if op == OSDiv {
+			return tt.binBV(OUDiv, a, b)
+		}
+		return tt.binBV(OURem, a, b)
+	}
+	if op == OAShr && nonNeg(a) {
+		return tt.binBV(OLShr, a, b)
+	}
+	if op == OURem && b.IsConst() && b.C > 0 && a.Hi < b.C {
+		return a
+	}
+	// (x * c) / c = x and (x * c) % c = 0 when the product cannot wrap
+	if (op == OUDiv || op == OURem) && b.IsConst() && b.C > 0 && a.Op == OMul && a.Args[1].IsConst() && a.Args[1].C == b.C {
+		if hh, hl := bits.Mul64(a.Args[0].Hi, b.C); hh == 0 && hl <= mask(w) {
+			if op == OUDiv {
+				return a.Args[0]
+			}
+			return tt.Const(w, 0)
+		}
+	}
 	// identities
 	switch op {
 	case OAdd:
@@ -540,7 +680,11 @@ func (tt *TermTable) binBV(op Op, a, b *Term) *Term {
 			return tt.binBV(OBAnd, a, tt.Const(w, b.C-1))
 		}
 	}
-	return tt.mk(op, a.S, 0, "", 0, 0, a, b)
+	r := tt.mk(op, a.S, 0, "", 0, 0, a, b)
+	if r.Lo == r.Hi {
+		return tt.Const(w, r.Lo)
+	}
+	return r
 }
 
 func (tt *TermTable) Add(a, b *Term) *Term  { return tt.binBV(OAdd, a, b) }
@@ -592,6 +736,35 @@ func (tt *TermTable) cmpBV(op Op, a, b *Term) *Term {
 	}
 	if a == b {
 		return tt.Bool(op == OUle || op == OSle)
+	}
+	if (op == OSlt || op == OSle) && nonNeg(a) && nonNeg(b) {
+		if op == OSlt {
+			op = OUlt
+		} else {
+			op = OUle
+		}
+	}
+	if (op == OSlt || op == OSle) && nonNeg(a) && b.Lo >= uint64(1)<<uint(w-1) {
+		return tt.False() // non-negative vs negative
+	}
+	if (op == OSlt || op == OSle) && nonNeg(b) && a.Lo >= uint64(1)<<uint(w-1) {
+		return tt.True()
+	}
+	switch op {
+	case OUlt:
+		if a.Hi < b.Lo {
+			return tt.True()
+		}
+		if a.Lo >= b.Hi {
+			return tt.False()
+		}
+	case OUle:
+		if a.Hi <= b.Lo {
+			return tt.True()
+		}
+		if a.Lo > b.Hi {
+			return tt.False()
+		}
 	}
 	switch op {
 	case OUlt:
